@@ -44,7 +44,8 @@ def predict_zid_line(line: str, zid: str) -> Optional[str]:
 
 def _is_calendar_long_date(word: str) -> bool:
     """YYYY-MM-DD that names a day of the calendar (2024-19-39 is just a word)."""
-    if not _LONG.match(word.rstrip("\r")):
+    # the grammar's DATE token only covers the years 2000-2999
+    if not _LONG.match(word.rstrip("\r")) or word[0] != "2":
         return False
     import datetime
 
